@@ -11,7 +11,7 @@ a vector mask, a vector stroke or layer effects DENOTES in that vocabulary (it u
 * an overlay effect is ONE MORE ELEMENT of the group the layer is in, painted right after the layer, with the
   effect's colour and blend mode, shape `f·e` and alpha `α·e·q` where `(f, α)` are the layer's shape and alpha
   after masks and layer opacity (fill opacity does not enter) and `e`, `q` the effect's own shape and opacity;
-* a stroke effect is one more element with the drawn shape `s` and alpha `s·q`;
+* a stroke effect is one more element with the drawn shape `s` and alpha `s·q·o` (`o`: the layer opacity);
 * the vector stroke of a shape is a non-isolated group over the object (backdrop = the object's colour and alpha)
   holding the stroke as its only element; the group's colour with the backdrop removed (§11.4.8) becomes the
   object's colour, the object keeps its shape and alpha;
@@ -33,13 +33,13 @@ def specOverlays (k : KoRule) (B : Mode → Color → Color → Color) (V bbox :
     specOverlays k B V bbox x y fs αs
       (specSource k (B e.mode) σ (fun ch => a * pasteAt V bbox x y e.color white ch) (fs * se) a false) es
 
-def specStrokeFx (k : KoRule) (B : Mode → Color → Color → Color) (V bbox : Rect) (x y : Int) (σ : SState) :
+def specStrokeFx (k : KoRule) (B : Mode → Color → Color → Color) (V bbox : Rect) (x y : Int) (lop : Rat) (σ : SState) :
     List StrokeFx → SState
   | [] => σ
   | s :: ss =>
     let sh := pasteAt V bbox x y (s.shape V) 0
-    let a := sh * s.opacity
-    specStrokeFx k B V bbox x y
+    let a := sh * (s.opacity * lop)
+    specStrokeFx k B V bbox x y lop
       (specSource k (B s.mode) σ (fun ch => a * pasteAt V bbox x y s.color black ch) sh a false) ss
 
 /-- an object `(Pj, fj, aj)` with effects enters its parent's group as the element `specFinish` describes (with the
@@ -51,7 +51,7 @@ def specFinishFx (k : KoRule) (B : Mode → Color → Color → Color) (force : 
   let a1 := aj * (m.1 * m.2 * pr.opacity)
   let σ1 := specSource k (B pr.mode) σ (fun ch => (m.1 * m.2 * pr.opacity * pr.fill) * Pj ch) (f1 * pr.fill) (a1 * pr.fill)
     pr.knockout
-  specStrokeFx k B V pr.bbox x y (specOverlays k B V pr.bbox x y f1 a1 σ1 fx.overlays) fx.strokeFx
+  specStrokeFx k B V pr.bbox x y pr.opacity (specOverlays k B V pr.bbox x y f1 a1 σ1 fx.overlays) fx.strokeFx
 
 /-- the vector stroke: a non-isolated group over the object `(Pj, aj)` with the stroke as its only element; where
 the stroke paints something (`αg ≠ 0`) the object's colour becomes the group colour with the backdrop removed,
